@@ -48,6 +48,7 @@ FN_SETS = [(), ('FORCEWIN',), ('FORCEWIN', 'RAWCHARS'), ('FORCEUNIX', 'RAWCHARS'
            ('SPLIT',), ('BRACE',), ('SPLIT', 'BRACE'), ('EXTMATCH', 'SPLIT', 'BRACE'), ('SPLIT', 'NEGATE'), ('SPLIT', 'DOTMATCH')]
 GL_SETS = FN_SETS + [('EXTMATCH', 'GLOBSTAR'), ('EXTMATCH', 'GLOBSTAR', 'DOTMATCH'), ('MATCHBASE',), ('EXTMATCH', 'NODIR'),
                      ('EXTMATCH', 'GLOBSTARLONG'), ('EXTMATCH', 'NODOTDIR')]
+REAL_NAMES = ['a', 'b', 'd/a', 'L/a', 'd/e/ab', 'L/e/ab', 'D/a', 'd', 'L', 'd/e', 'L/e', '.h', 'd/.x', 'L/.x', 'c.d', 'zz', 'A', 'd/A', 'L/A']
 NAMES = ['a', 'b', 'ab', '.a', 'A', 'a.b', 'aa', 'ba', 'a/b', 'd/a', 'd/e/ab', '.h', 'c.d', 'B', 'a|b', '{a,b}', '!a', 'x', 'a/', 'b/a/ab']
 
 
@@ -93,6 +94,12 @@ def build_pool(seed, n_texts=640):
             pool.append({'api': 'glob.glob', 'pat': t, 'flags': ['EXTMATCH', 'GLOBSTAR'], 'bytes': False})
             pool.append({'api': 'pathlib.rglob', 'pat': t, 'flags': ['EXTMATCH', 'GLOBSTAR'], 'bytes': False})
             pool.append({'api': 'pathlib.glob', 'pat': t, 'flags': ['EXTMATCH', 'GLOBSTAR'], 'bytes': False})
+            # the matcher against the file system (paths through the link L), with and without MATCHBASE, with and without an exclusion,
+            # next to translate() of the same text under the same flags (translate and exclusions compile recursive segments differently)
+            for fs_ in (['EXTMATCH', 'MATCHBASE'], ['EXTMATCH', 'GLOBSTAR'], ['EXTMATCH', 'MATCHBASE', 'DOTMATCH'], ['EXTMATCH', 'MATCHBASE', 'GLOBSTARLONG', 'FOLLOW']):
+                pool.append({'api': 'glob.realfilter', 'pat': t, 'flags': fs_, 'bytes': False})
+                pool.append({'api': 'glob.realfilter-exclude', 'pat': t, 'flags': fs_, 'bytes': rng.random() < 0.3})
+                pool.append({'api': 'glob.translate', 'pat': t, 'flags': fs_ + ['REALPATH'], 'bytes': False})
     # texts with escapes: the same text under Windows / Unix style, with and without RAWCHARS, str and bytes (normalisation of the
     # pattern text happens before parsing and must depend on all of these)
     for t in fixed:
@@ -133,6 +140,11 @@ def eval_call(c, root):
     names = enc(NAMES, b) if b else NAMES + ['\u2603', 'x\u2603', '\u0100']     # (str calls also see names outside Latin-1)
     flags = flags_of(c['flags'])
     try:
+        if api in ('glob.realfilter', 'glob.realfilter-exclude'):
+            r = os.fsencode(root) if b else root
+            cands = enc(REAL_NAMES, b) if b else REAL_NAMES
+            kw_ = {'exclude': enc('zz*', b)} if api.endswith('exclude') else {}
+            return dec(G.globfilter(cands, pat, flags=flags | G.REALPATH, root_dir=r, **kw_))
         if api.startswith('fnmatch.') or api.startswith('glob.') and api != 'glob.glob':
             mod = F if api.startswith('fnmatch.') else G
             op = api.split('.', 1)[1]
